@@ -39,10 +39,12 @@ type SParam struct {
 }
 type STable struct{ T *Table }
 
-// SLookup is m[key], yielding Default when the key is absent.
+// SLookup is m[key], yielding Default when the key is absent. Arr: x[i] on an array or slice (Default is the
+// zero element; an index out of range is a run-time panic, which no summary value stands for).
 type SLookup struct {
 	M, Key  Sum
 	Default Value
+	Arr     bool
 }
 
 // SHas is the comma-ok result of m[key].
@@ -77,6 +79,25 @@ type SNone struct{}
 // SLen is len(M) of a table.
 type SLen struct{ M Sum }
 
+// SOrd is an ordered comparison of two integers (Op one of < <= > >=).
+type SOrd struct {
+	Op   token.Token
+	A, B Sum
+}
+
+// SArith is A + B or A - B on integers.
+type SArith struct {
+	Op   token.Token
+	A, B Sum
+}
+
+// SConv is an integer-to-integer conversion T(X); the fragment only admits it between types of the same
+// size class (see translator.conv), where it keeps the number.
+type SConv struct {
+	X Sum
+	T types.Type
+}
+
 func (SConst) sum()  {}
 func (SParam) sum()  {}
 func (STable) sum()  {}
@@ -90,6 +111,9 @@ func (SBin) sum()    {}
 func (SIte) sum()    {}
 func (SNone) sum()   {}
 func (SLen) sum()    {}
+func (SOrd) sum()    {}
+func (SArith) sum()  {}
+func (SConv) sum()   {}
 
 type sumErr struct {
 	msg string
@@ -297,14 +321,160 @@ func (tr *translator) stmts(list []ast.Stmt, e env) Sum {
 		return tr.switchStmt(s, rest, e)
 	case *ast.RangeStmt:
 		return tr.rangeStmt(s, rest, e)
+	case *ast.ForStmt:
+		return tr.forStmt(s, rest, e)
+	case *ast.IncDecStmt:
+		return tr.stmts(rest, tr.incDec(s, e))
 	}
 	tr.fail(st.Pos(), "statement form %T is outside the leaf-function fragment", st)
 	return nil
 }
 
-// assign handles  x = e,  x := e,  v, ok := m[k],  _, ok := m[k].
+// localVar resolves an assigned identifier to a local variable.
+func (tr *translator) localVar(x ast.Expr) *types.Var {
+	id, ok := ast.Unparen(x).(*ast.Ident)
+	if !ok {
+		tr.fail(x.Pos(), "assignment to a non-local location")
+	}
+	obj := tr.info.Uses[id]
+	if o := tr.info.Defs[id]; o != nil {
+		obj = o
+	}
+	v, ok := obj.(*types.Var)
+	if !ok || v.Parent() == nil || v.Parent() == v.Pkg().Scope() || v.IsField() {
+		tr.fail(x.Pos(), "assignment to a package-level variable or field")
+	}
+	return v
+}
+
+func isIntType(t types.Type) bool {
+	if t == nil {
+		return false
+	}
+	if tp, ok := t.(*types.TypeParam); ok {
+		// a type parameter whose type set holds integer types only (~int)
+		iface, _ := tp.Constraint().Underlying().(*types.Interface)
+		if iface == nil || iface.NumEmbeddeds() == 0 {
+			return false
+		}
+		all := true
+		for i := 0; i < iface.NumEmbeddeds(); i++ {
+			u, ok := iface.EmbeddedType(i).(*types.Union)
+			if !ok {
+				all = all && isIntType(iface.EmbeddedType(i))
+				continue
+			}
+			for j := 0; j < u.Len(); j++ {
+				all = all && isIntType(u.Term(j).Type())
+			}
+		}
+		return all
+	}
+	b, ok := t.Underlying().(*types.Basic)
+	return ok && b.Info()&types.IsInteger != 0
+}
+
+// incDec: x++ / x-- on a local integer.
+func (tr *translator) incDec(s *ast.IncDecStmt, e env) env {
+	v := tr.localVar(s.X)
+	cur, ok := e[v]
+	if !ok || !isIntType(v.Type()) {
+		tr.fail(s.Pos(), "%s of something that is not a local integer", s.Tok)
+	}
+	op := token.ADD
+	if s.Tok == token.DEC {
+		op = token.SUB
+	}
+	e = e.clone()
+	e[v] = tr.fold(SArith{Op: op, A: cur, B: SConst{Value{Kind: VConst, C: constant.MakeInt64(1), Type: v.Type()}}})
+	return e
+}
+
+// fold replaces a parameter-free expression by its value.
+func (tr *translator) fold(s Sum) Sum {
+	if v := tr.f.eval(s, nil); v.Kind == VConst {
+		return SConst{v}
+	}
+	return s
+}
+
+// forStmt unrolls a counting loop  for i := c; cond(i); i++ { body }  whose condition is decided by the loop
+// variable and the tables alone (the trip count is then a fact about the literal tables, like the entries).
+func (tr *translator) forStmt(s *ast.ForStmt, rest []ast.Stmt, e env) Sum {
+	if s.Cond == nil {
+		tr.fail(s.Pos(), "for loop without a condition")
+	}
+	if s.Init != nil {
+		as, ok := s.Init.(*ast.AssignStmt)
+		if !ok {
+			tr.fail(s.Init.Pos(), "unsupported for-initialiser")
+		}
+		e = tr.assign(as, e)
+	}
+	post := func(e2 env) env {
+		switch p := s.Post.(type) {
+		case nil:
+			return e2
+		case *ast.IncDecStmt:
+			return tr.incDec(p, e2)
+		case *ast.AssignStmt:
+			e3 := tr.assign(p, e2)
+			for _, l := range p.Lhs {
+				if v := tr.localVar(l); v != nil {
+					e3[v] = tr.fold(e3[v])
+				}
+			}
+			return e3
+		}
+		tr.fail(s.Post.Pos(), "unsupported for-post statement")
+		return nil
+	}
+	after := func(e2 env) Sum { return tr.stmts(rest, e2) }
+	var iter func(n int, e2 env) Sum
+	iter = func(n int, e2 env) Sum {
+		if n > 64 {
+			tr.fail(s.Pos(), "for loop not finished after 64 iterations")
+		}
+		c, bad, ok := tr.f.evalBool(tr.expr(s.Cond, e2), nil)
+		if !ok {
+			tr.fail(s.Cond.Pos(), "loop condition is not decided by the loop variable and the tables alone (%s)", bad.Why)
+		}
+		if !c {
+			return after(e2)
+		}
+		next := func(e4 env) Sum { return iter(n+1, post(e4)) }
+		depth := len(tr.loops)
+		tr.loops = append(tr.loops, loopFrame{next: next, brk: after})
+		body := append(append([]ast.Stmt{}, s.Body.List...), &contStmt{k: func(e4 env) Sum {
+			saved := tr.loops
+			tr.loops = tr.loops[:depth]
+			out := next(e4)
+			tr.loops = saved
+			return out
+		}})
+		out := tr.stmts(body, e2)
+		tr.loops = tr.loops[:depth]
+		return out
+	}
+	return iter(0, e)
+}
+
+// assign handles  x = e,  x := e,  x += e,  v, ok := m[k],  _, ok := m[k].
 func (tr *translator) assign(s *ast.AssignStmt, e env) env {
 	e = e.clone()
+	if (s.Tok == token.ADD_ASSIGN || s.Tok == token.SUB_ASSIGN) && len(s.Lhs) == 1 && len(s.Rhs) == 1 {
+		v := tr.localVar(s.Lhs[0])
+		cur, ok := e[v]
+		if !ok || !isIntType(v.Type()) {
+			tr.fail(s.Pos(), "%s on something that is not a local integer", s.Tok)
+		}
+		op := token.ADD
+		if s.Tok == token.SUB_ASSIGN {
+			op = token.SUB
+		}
+		e[v] = SArith{Op: op, A: cur, B: tr.expr(s.Rhs[0], e)}
+		return e
+	}
 	if s.Tok != token.ASSIGN && s.Tok != token.DEFINE {
 		tr.fail(s.Pos(), "assignment operator %s is outside the fragment", s.Tok)
 	}
@@ -448,6 +618,21 @@ func (tr *translator) rangeStmt(s *ast.RangeStmt, rest []ast.Stmt, e env) Sum {
 			return tr.unrollRange(s, lit, rest, e)
 		}
 	}
+	if _, _, arr, ok := tableTypes(tr.info.TypeOf(s.X)); ok && arr {
+		// range over an array or slice table: unrolled in index order over the literal's elements
+		if st, ok := tr.expr(s.X, e).(STable); ok && st.T.Arr && st.T.Len <= 64 {
+			z := tr.f.ZeroOf(st.T.ElemT)
+			if z.Kind == VInvalid {
+				tr.fail(s.Pos(), "%s", z.Why)
+			}
+			elems := make([]Sum, st.T.Len)
+			for i := range elems {
+				elems[i] = tr.fold(SLookup{M: st, Key: SConst{Value{Kind: VConst, C: constant.MakeInt64(int64(i)), Type: types.Typ[types.Int]}}, Default: z, Arr: true})
+			}
+			return tr.unrollElems(s, elems, rest, e)
+		}
+		tr.fail(s.Pos(), "range over an array or slice that is not a literal table")
+	}
 	if _, ok := tr.info.TypeOf(s.X).Underlying().(*types.Map); !ok {
 		tr.fail(s.Pos(), "range over something that is neither a map nor an array/slice literal")
 	}
@@ -561,6 +746,17 @@ func (tr *translator) unrollRange(s *ast.RangeStmt, lit *ast.CompositeLit, rest 
 	if len(lit.Elts) > 16 {
 		tr.fail(s.Pos(), "range over a literal with more than 16 elements")
 	}
+	elems := make([]Sum, len(lit.Elts))
+	for i, el := range lit.Elts {
+		if _, keyed := el.(*ast.KeyValueExpr); keyed {
+			tr.fail(el.Pos(), "keyed element in a ranged literal")
+		}
+		elems[i] = tr.expr(el, e)
+	}
+	return tr.unrollElems(s, elems, rest, e)
+}
+
+func (tr *translator) unrollElems(s *ast.RangeStmt, elems []Sum, rest []ast.Stmt, e env) Sum {
 	var kv, vv *types.Var
 	if s.Tok == token.DEFINE {
 		if id, ok := s.Key.(*ast.Ident); ok && id.Name != "_" {
@@ -571,13 +767,6 @@ func (tr *translator) unrollRange(s *ast.RangeStmt, lit *ast.CompositeLit, rest 
 		}
 	} else if s.Key != nil || s.Value != nil {
 		tr.fail(s.Pos(), "range loop assigning to existing variables")
-	}
-	elems := make([]Sum, len(lit.Elts))
-	for i, el := range lit.Elts {
-		if _, keyed := el.(*ast.KeyValueExpr); keyed {
-			tr.fail(el.Pos(), "keyed element in a ranged literal")
-		}
-		elems[i] = tr.expr(el, e)
 	}
 	after := func(e2 env) Sum { return tr.stmts(rest, e2) }
 	var iter func(i int, e2 env) Sum
@@ -696,26 +885,45 @@ func (tr *translator) expr(x ast.Expr, e env) Sum {
 			return SCmp{Neg: n.Op == token.NEQ, A: tr.expr(n.X, e), B: tr.expr(n.Y, e)}
 		case token.LAND, token.LOR:
 			return SBin{And: n.Op == token.LAND, A: tr.expr(n.X, e), B: tr.expr(n.Y, e)}
+		case token.LSS, token.LEQ, token.GTR, token.GEQ:
+			if isIntType(tr.info.TypeOf(n.X)) && isIntType(tr.info.TypeOf(n.Y)) {
+				return SOrd{Op: n.Op, A: tr.expr(n.X, e), B: tr.expr(n.Y, e)}
+			}
+		case token.ADD, token.SUB:
+			if isIntType(tr.info.TypeOf(n.X)) && isIntType(tr.info.TypeOf(n.Y)) {
+				return SArith{Op: n.Op, A: tr.expr(n.X, e), B: tr.expr(n.Y, e)}
+			}
 		}
 		tr.fail(n.Pos(), "operator %s is outside the fragment", n.Op)
 	case *ast.IndexExpr:
-		mt, ok := tr.info.TypeOf(n.X).Underlying().(*types.Map)
+		_, et, arr, ok := tableTypes(tr.info.TypeOf(n.X))
 		if !ok {
-			tr.fail(n.Pos(), "index of a non-map")
+			tr.fail(n.Pos(), "index of something that is not a map, an array or a slice")
 		}
-		z := tr.f.ZeroOf(mt.Elem())
+		z := tr.f.ZeroOf(et)
 		if z.Kind == VInvalid {
 			tr.fail(n.Pos(), "%s", z.Why)
 		}
-		return SLookup{M: tr.expr(n.X, e), Key: tr.expr(n.Index, e), Default: z}
+		return SLookup{M: tr.expr(n.X, e), Key: tr.expr(n.Index, e), Default: z, Arr: arr}
+	case *ast.SliceExpr:
+		// x[:] of an array or slice table: the same elements
+		if n.Low == nil && n.High == nil && n.Max == nil {
+			if _, _, arr, ok := tableTypes(tr.info.TypeOf(n.X)); ok && arr {
+				return tr.expr(n.X, e)
+			}
+		}
+		tr.fail(n.Pos(), "slice expression with bounds is outside the fragment")
 	case *ast.CallExpr:
 		if tv, ok := tr.info.Types[n.Fun]; ok && tv.IsType() {
-			tr.fail(n.Pos(), "conversion is outside the fragment")
+			if len(n.Args) == 1 && isIntType(tv.Type) && isIntType(tr.info.TypeOf(n.Args[0])) && tr.sameWidth(tv.Type, tr.info.TypeOf(n.Args[0])) {
+				return SConv{X: tr.expr(n.Args[0], e), T: tv.Type}
+			}
+			tr.fail(n.Pos(), "conversion (other than between integer types of one width) is outside the fragment")
 		}
 		// len(m) of a map
 		if id, ok := ast.Unparen(n.Fun).(*ast.Ident); ok && len(n.Args) == 1 {
 			if bi, ok := tr.info.Uses[id].(*types.Builtin); ok && bi.Name() == "len" {
-				if _, isMap := tr.info.TypeOf(n.Args[0]).Underlying().(*types.Map); isMap {
+				if _, _, _, isTab := tableTypes(tr.info.TypeOf(n.Args[0])); isTab {
 					return SLen{M: tr.expr(n.Args[0], e)}
 				}
 				if bt, ok := tr.info.TypeOf(n.Args[0]).Underlying().(*types.Basic); ok && bt.Info()&types.IsString != 0 {
@@ -748,6 +956,52 @@ func (tr *translator) expr(x ast.Expr, e env) Sum {
 	return nil
 }
 
+// sameWidth: a conversion between the two integer types keeps every value (same basic kind, e.g. a named
+// int type and int; a type parameter counts as its core type).
+func (tr *translator) sameWidth(a, b types.Type) bool {
+	kind := func(t types.Type) types.BasicKind {
+		if tp, ok := t.(*types.TypeParam); ok {
+			iface, _ := tp.Constraint().Underlying().(*types.Interface)
+			k := types.Invalid
+			if iface != nil {
+				for i := 0; i < iface.NumEmbeddeds(); i++ {
+					et := iface.EmbeddedType(i)
+					var ts []types.Type
+					if u, ok := et.(*types.Union); ok {
+						for j := 0; j < u.Len(); j++ {
+							ts = append(ts, u.Term(j).Type())
+						}
+					} else {
+						ts = append(ts, et)
+					}
+					for _, t := range ts {
+						b, ok := t.Underlying().(*types.Basic)
+						if !ok || (k != types.Invalid && b.Kind() != k) {
+							return types.Invalid
+						}
+						k = b.Kind()
+					}
+				}
+			}
+			return k
+		}
+		if b, ok := t.Underlying().(*types.Basic); ok {
+			return b.Kind()
+		}
+		return types.Invalid
+	}
+	ka, kb := kind(a), kind(b)
+	return ka != types.Invalid && ka == kb
+}
+
+// numOf: the integer an abstract value stands for: a constant, or a concrete out-of-range representative.
+func numOf(v Value) (constant.Value, bool) {
+	if (v.Kind == VConst || v.Kind == VOther) && v.C != nil && v.C.Kind() == constant.Int {
+		return v.C, true
+	}
+	return nil, false
+}
+
 // ---------------------------------------------------------------------------
 // Denotation of a summary on the finite abstract domain.
 
@@ -765,6 +1019,21 @@ func (f *Facts) Eval(fn *types.Func, args ...Value) Value {
 		b[pv] = args[i]
 	}
 	return f.eval(s.Body, b)
+}
+
+// intValue is the integer c as a value of type t: the declared constant when t is an enumeration that has one.
+func (f *Facts) intValue(c constant.Value, t types.Type) Value {
+	v := Value{Kind: VConst, C: c, Type: t}
+	if t != nil {
+		if e := f.EnumOf(t); e != nil {
+			if i, ok := constant.Int64Val(c); ok {
+				if k := e.ConstByVal(i); k != nil {
+					v.Obj = k
+				}
+			}
+		}
+	}
+	return v
 }
 
 func boolVal(b bool) Value {
@@ -816,6 +1085,15 @@ func (f *Facts) eval(s Sum, b map[*types.Var]Value) Value {
 		k := f.eval(x.Key, b)
 		if k.Kind == VInvalid || k.Kind == VAmbiguous {
 			return k
+		}
+		if x.Arr || (t != nil && t.Arr) {
+			if t == nil || !t.InRange(k) {
+				name := "nil slice"
+				if t != nil {
+					name = t.Name
+				}
+				return Value{Kind: VInvalid, Why: fmt.Sprintf("index %s is out of the range of %s (run-time panic)", k, name)}
+			}
 		}
 		if t == nil {
 			return x.Default
@@ -886,8 +1164,60 @@ func (f *Facts) eval(s Sum, b map[*types.Var]Value) Value {
 		n := 0
 		if t != nil {
 			n = len(t.Entries)
+			if t.Arr {
+				n = t.Len
+			}
 		}
 		return Value{Kind: VConst, C: constant.MakeInt64(int64(n)), Type: types.Typ[types.Int]}
+	case SOrd:
+		av, bv := f.eval(x.A, b), f.eval(x.B, b)
+		for _, v := range []Value{av, bv} {
+			if v.Kind == VInvalid || v.Kind == VAmbiguous {
+				return v
+			}
+		}
+		ac, aok := numOf(av)
+		bc, bok := numOf(bv)
+		switch {
+		case aok && bok:
+			return boolVal(constant.Compare(ac, x.Op, bc))
+		case av.Kind == VOther && bok:
+			// the abstract "any other value" is read as a number above every number the program mentions
+			return boolVal(x.Op == token.GTR || x.Op == token.GEQ)
+		case aok && bv.Kind == VOther:
+			return boolVal(x.Op == token.LSS || x.Op == token.LEQ)
+		}
+		return Value{Kind: VInvalid, Why: fmt.Sprintf("ordered comparison of %s and %s", av, bv)}
+	case SArith:
+		av, bv := f.eval(x.A, b), f.eval(x.B, b)
+		for _, v := range []Value{av, bv} {
+			if v.Kind == VInvalid || v.Kind == VAmbiguous {
+				return v
+			}
+		}
+		ac, aok := numOf(av)
+		bc, bok := numOf(bv)
+		if !aok || !bok {
+			return Value{Kind: VInvalid, Why: fmt.Sprintf("arithmetic on %s and %s", av, bv)}
+		}
+		r := constant.BinaryOp(ac, x.Op, bc)
+		if i, exact := constant.Int64Val(r); !exact || i > 1<<30 || i < -(1<<30) {
+			return Value{Kind: VInvalid, Why: "arithmetic result outside the modelled range"}
+		}
+		return f.intValue(r, av.Type)
+	case SConv:
+		v := f.eval(x.X, b)
+		switch v.Kind {
+		case VConst:
+			if c, ok := numOf(v); ok {
+				return f.intValue(c, x.T)
+			}
+		case VOther:
+			return Value{Kind: VOther, C: v.C, Type: x.T}
+		case VInvalid, VAmbiguous:
+			return v
+		}
+		return Value{Kind: VInvalid, Why: "conversion of " + v.String()}
 	case SCmp:
 		av, bv := f.eval(x.A, b), f.eval(x.B, b)
 		for _, v := range []Value{av, bv} {
@@ -1002,6 +1332,14 @@ func (f *Facts) TablesRead(fn *types.Func) map[*Table]bool {
 		case SCmp:
 			walkSum(x.A)
 			walkSum(x.B)
+		case SOrd:
+			walkSum(x.A)
+			walkSum(x.B)
+		case SArith:
+			walkSum(x.A)
+			walkSum(x.B)
+		case SConv:
+			walkSum(x.X)
 		case SNot:
 			walkSum(x.X)
 		case SBin:
@@ -1063,6 +1401,14 @@ func (f *Facts) StringConsts(fn *types.Func) map[string]bool {
 		case SCmp:
 			walkSum(x.A)
 			walkSum(x.B)
+		case SOrd:
+			walkSum(x.A)
+			walkSum(x.B)
+		case SArith:
+			walkSum(x.A)
+			walkSum(x.B)
+		case SConv:
+			walkSum(x.X)
 		case SNot:
 			walkSum(x.X)
 		case SBin:
